@@ -12,6 +12,9 @@ use swimos_recon::{compare_recon_values, print_recon, print_recon_compact, print
 use swimos_form::read::{ReadError, ReadEvent, Recognizer, RecognizerReadable};
 use vcore::*;
 
+#[path = "../frozen_comparator.rs"]
+mod frozen_comparator;
+
 // ---- the parse events of a text (used only to classify a failure into the known class) ----
 pub struct Log(pub Vec<ReadEvent<'static>>);
 pub struct LogRec(Vec<ReadEvent<'static>>);
@@ -52,6 +55,11 @@ impl RecognizerReadable for Log {
     fn make_body_recognizer() -> LogRec {
         LogRec(vec![])
     }
+}
+
+/// All the parse events of a text.
+fn all_events(s: &str) -> Option<Vec<ReadEvent<'static>>> {
+    parse_recognize::<Log>(Span::new(s), false).ok().map(|l| l.0)
 }
 
 /// The events of a text with every StartBody / EndRecord removed.
@@ -390,6 +398,7 @@ fn main() {
     let mut nontrivial = 0u64;
     let mut distinct = BTreeSet::new();
 
+    let frozen_differs = std::cell::Cell::new(0u64);
     let mut check = |a: &str, b: &str, kind: &str, failures: &mut Vec<String>| {
         evals += 1;
         *kinds.entry(kind.into()).or_default() += 1;
@@ -400,12 +409,25 @@ fn main() {
                 (Some(x), Some(y)) => x == y,
                 _ => a == b,
             };
+            if va.is_some() && vb.is_some() {
+                // information only: does the comparator still answer as the frozen copy of it does?
+                if let (Some(fa), Some(fb)) = (all_events(a), all_events(b)) {
+                    if frozen_comparator::frozen_compare(fa, fb) != Some(got) {
+                        frozen_differs.set(frozen_differs.get() + 1);
+                    }
+                }
+            }
             if got != expected {
                 // the known class C15-F1: two valid texts with different values whose event streams differ only in
                 // where record bodies start and end, reported as equal
+                // ... and only where the comparator as it was when the finding was recorded (frozen copy) gives this
+                // very answer on the two event streams: a comparator changed to be wrong on more pairs is a violation
                 let known = got && va.is_some() && vb.is_some() && {
                     let (ea, eb) = (events_without_braces(a), events_without_braces(b));
                     ea.is_some() && ea == eb
+                } && match (all_events(a), all_events(b)) {
+                    (Some(fa), Some(fb)) => frozen_comparator::frozen_compare(fa, fb) == Some(true),
+                    _ => false,
                 };
                 return Err(format!("{}compare_recon_values({:?}, {:?}) = {} but the parsed values {:?} / {:?} say {}", if known { "KNOWN-F1 " } else { "" }, a, b, got, va, vb, expected));
             }
@@ -551,6 +573,60 @@ fn main() {
         check(&nested, &nested2, "attr_body_leaves", &mut failures);
     }
 
+    // ---- one sequence of leaves under different bracketings (empty records included): texts whose tokens agree
+    //      and that differ only in where records start and end denote different values unless the bracketing is
+    //      the same up to the implicit record of an attribute body ----
+    fn bracket(rng: &mut Rng, leaves: &[&str], depth: u32) -> String {
+        // the items of one record body over these leaves
+        let mut items: Vec<String> = vec![];
+        let mut i = 0;
+        while i < leaves.len() || (depth < 3 && rng.below(6) == 0) {
+            if depth < 3 && rng.below(3) == 0 {
+                let k = rng.below((leaves.len() - i) as u64 + 1) as usize;
+                let sub = format!("{{{}}}", bracket(rng, &leaves[i..i + k], depth + 1));
+                // after an attribute a record may follow without a separator: it is then that attribute's record
+                match items.last_mut() {
+                    Some(prev) if prev.starts_with('@') && !prev.ends_with('}') && rng.below(2) == 0 => prev.push_str(&sub),
+                    _ => items.push(sub),
+                }
+                i += k;
+            } else if i < leaves.len() {
+                items.push(leaves[i].to_string());
+                i += 1;
+            } else {
+                break;
+            }
+        }
+        items.join(",")
+    }
+    let pools: Vec<Vec<&str>> = vec![
+        vec!["b"], vec!["b", "b"], vec!["1", "2"], vec!["@a"], vec!["@a()"], vec!["@a", "@b"], vec!["@a", "b"],
+        vec!["b", "@a"], vec!["@a(1)", "2"], vec!["a:1", "b"], vec![], vec!["@a(b)", "@a(b)"], vec!["\"x\"", "1", "@t"],
+    ];
+    let alphabet = ["b", "1", "@a", "@a()", "@b(1)", "k:2", "\"two words\"", "true", "%AA=="];
+    let rounds = pools.len() + args.cases / 20;
+    for round in 0..rounds {
+        let leaves: Vec<&str> = if round < pools.len() {
+            pools[round].clone()
+        } else {
+            (0..rng.range(1, 3)).map(|_| *rng.pick(&alphabet)).collect()
+        };
+        let mut texts: Vec<String> = vec![];
+        for _ in 0..7 {
+            let body = bracket(&mut rng, &leaves, 0);
+            // the whole as one record, or (when it starts with attributes) as it stands
+            let t = if body.starts_with('@') && rng.below(2) == 0 && !body.contains(',') { body } else { format!("{{{}}}", body) };
+            if !texts.contains(&t) {
+                texts.push(t);
+            }
+        }
+        for i in 0..texts.len() {
+            for j in (i + 1)..texts.len() {
+                check(&texts[i], &texts[j], "bracketings_of_one_leaf_sequence", &mut failures);
+            }
+        }
+    }
+
     // ---- text / boolean keys against the model ----
     let mut w = CaseWriter::new(
         "From SwimV Require Import Model.ReconText.\nOpen Scope N_scope.",
@@ -631,6 +707,7 @@ fn main() {
         ("direct_failures", J::A(failures.iter().take(40).map(|f| J::s(f.chars().take(500).collect::<String>())).collect())),
         ("direct_failure_count", J::I(failures.len() as i128)),
         ("known_f1_hits", J::I(known.len() as i128)),
+        ("pairs_on_which_the_comparator_differs_from_its_frozen_copy", J::I(frozen_differs.get() as i128)),
     ]);
     write_meta(&args.out, "meta.json", &meta);
 }
